@@ -677,7 +677,7 @@ def unit_semantic(chk, program):
         return fs + [deg, noq] + extra
     def snap(fs):
         return [(f.attrs['value'], f.attrs['unit_of_measurement'], f.attrs['raw_value']) for f in fs]
-    def run(prefs):
+    def run(prefs, layout=0):
         def hook(it, call, env):
             f = call.func
             cv = None
@@ -697,6 +697,8 @@ def unit_semantic(chk, program):
                 return A.AObj(converted_by=cv, of=args[0] if len(args) == 1 else None, line=call.lineno)
             return NotImplemented
         fs = build()
+        if layout:
+            fs = fs[::-1]          # another message of the same PGN whose fields are laid out differently (another definition of the number)
         msg = A.AObj(fields=A.AList(fs), PGN=A.AInt(1), id=A.AStr([('lit', 'x')]))
         before = snap(fs)
         pd = A.ADict({f"PhysicalQuantities.{q}": A.AStr([('lit', l)]) for q, l in prefs.items()})
@@ -728,6 +730,20 @@ def unit_semantic(chk, program):
                         problems.append(f"preference {q}={lit}: value and unit label are not rewritten together (value {'converted' if okv else 'not converted / not by one converter of its own value'}, label {u1!r})")
                         continue
                     rows[(q, lit)] = {'helper': v1.attrs['converted_by'], 'label': u1.literal(), 'line': v1.attrs.get('line', fn.lineno)}
+        # the same preferences on a message of the same PGN with another field order: what an earlier message left behind (positions, verdicts) must not decide
+        for (q, lit) in sorted(rows):
+            fs, b, a = run({q: lit}, layout=1)
+            for f, (v0, u0, r0), (v1, u1, r1) in zip(fs, b, a):
+                fq = f.attrs['__q__']
+                changed = (v1 is not v0) or (u1 is not u0 and (not isinstance(u1, A.AStr) or not isinstance(u0, A.AStr) or u1.literal() != u0.literal()))
+                if r1 is not r0:
+                    problems.append(f"preference {q}={lit}, second layout: raw value of the {fq} field rewritten")
+                elif fq != q and changed:
+                    problems.append(f"preference {q}={lit} changes the {fq} field of a message whose fields are ordered differently from an earlier one of the same PGN")
+                elif fq == q and not changed:
+                    problems.append(f"preference {q}={lit} is not applied to the {fq} field of a message whose fields are ordered differently from an earlier one of the same PGN")
+                elif fq == q and not (isinstance(v1, A.AObj) and v1.attrs.get('of') is v0 and v1.attrs.get('converted_by') == rows[(q, lit)]['helper']):
+                    problems.append(f"preference {q}={lit}: the {fq} field of a differently ordered message is converted differently")
         # two preferences at once: each quantity follows its own
         fs, b, a = run({'TEMPERATURE': 'c', 'PRESSURE': 'bar'})
         for f, (v0, u0, r0), (v1, u1, r1) in zip(fs, b, a):
